@@ -319,6 +319,22 @@ Proof.
   destruct (declarations_then_rates_then_recording ps cs pr ar prate arate tp ta q fs s' H1 H2 H3 H4 H5 H6 H7 H8 H9 H10 H11 H12 H13 H14 H15 H16 H) as (A & B & _). auto.
 Qed.
 
+Corollary session_stores_the_frames : forall ps cs pr ar prate arate tp ta q fs s',
+  cs <> [] -> nlen ps < 2147483648 -> nlen cs < 2147483648 ->
+  p_name pr = nm_RATE -> kind_ok KFlt1 pr = true -> values_as_float pr = Ok (prate :: tp) -> f32_is_zero prate = false ->
+  p_name ar = nm_RATE -> kind_ok KFlt1 ar = true -> values_as_float ar = Ok (arate :: ta) ->
+  f_tosize (f_div 0 prate) = Ok 0 -> f_tosize (f_div arate prate) = Ok q -> 1 <= q -> nlen cs * q < two64 ->
+  Forall (fun f => map pt_name (fr_pts f) = map rtrim ps /\ nlen (fr_subs f) = q /\
+                   (forall sf, In sf (fr_subs f) -> map ch_name sf = map rtrim cs)) fs ->
+  nlen fs < 2147483647 ->
+  run_ops f_key f_tosize f_div f_is_zero
+    (map OPoint ps ++ map OAnalog cs ++ [OParam nm_POINT pr; OParam nm_ANALOG ar] ++ map (fun f => OFrame f None) fs) init = ROk tt s' ->
+  frames s' = fs.
+Proof.
+  intros ps cs pr ar prate arate tp ta q fs s' H1 H2 H3 H4 H5 H6 H7 H8 H9 H10 H11 H12 H13 H14 H15 H16 H.
+  exact (proj2 (session_end ps cs pr ar prate arate tp ta q fs s' H1 H2 H3 H4 H5 H6 H7 H8 H9 H10 H11 H12 H13 H14 H15 H16 H)).
+Qed.
+
 (* ... AT EVERY INTERMEDIATE STATE, not only at the end: whatever prefix of the session has been carried out — some of the
    declarations, all of them, the first rate, both rates, some of the frames — header, parameters and stored data agree *)
 Theorem session_every_intermediate_state : forall ps cs pr ar prate arate tp ta q fs s' pre post sk,
